@@ -118,7 +118,7 @@ def run(tier, seed, focus):
         evals += len(hist)
         kinds.add(cfg[:5])
         if bad and prop == focus and len(viol) < 5:
-            viol.append({"key": "%s:ops:%s" % (focus, bad[:70]), "what": bad, "config": list(cfg), "seed2": s2, "history": [list(h) for h in hist], "kind": "cacheops"})
+            viol.append({"key": "%s:ops:%s" % (focus, bad[:70]), "what": bad, "config": list(cfg), "seed2": s2, "history": [list(h) for h in hist], "sub": "cacheops"})
     return evals, len(kinds), viol
 
 
@@ -128,4 +128,4 @@ def replay(j):
     print("history:", hist[-6:])
     print("now:", bad or "cache and references agree")
     print("recorded:", j.get("what"))
-    return bad is not None
+    return bad is None          # True = the contract holds now
